@@ -37,6 +37,8 @@ type sTrack struct {
 	ts    *mpegts.Track
 	// for oracles
 	supported bool
+	// the timescale the init section declares when it is not the real one (C13: degenerate declarations)
+	initScale *uint32
 }
 
 type sSeg struct {
@@ -113,7 +115,11 @@ type stubOrigin struct {
 func renderInit(st *sStream) []byte {
 	var in fmp4.Init
 	for _, t := range st.tracks {
-		in.Tracks = append(in.Tracks, &fmp4.InitTrack{ID: t.id, TimeScale: uint32(t.scale), Codec: t.codec})
+		scale := uint32(t.scale)
+		if t.initScale != nil {
+			scale = *t.initScale
+		}
+		in.Tracks = append(in.Tracks, &fmp4.InitTrack{ID: t.id, TimeScale: scale, Codec: t.codec})
 	}
 	var buf seekablebuffer.Buffer
 	if err := in.Marshal(&buf); err != nil {
